@@ -242,7 +242,12 @@ func collectStd(reps []*vc.FuncReport) []string {
 func checkVacuity(L *Loaded, rep *vc.FuncReport, seed int) string {
 	X := L.Engine.X
 	scriptMu.Lock()
-	asserts := append([]*smt.Term{}, rep.Assumptions...)
+	var asserts []*smt.Term
+	for i, a := range rep.Assumptions {
+		if !rep.GoalAssume[i] {
+			asserts = append(asserts, a)
+		}
+	}
 	if rep.ExitPC != nil {
 		asserts = append(asserts, rep.ExitPC)
 	}
